@@ -102,7 +102,7 @@ func VerifC10_DecodeTail() {
 func VerifC10_GetAddrs() {
 	good := []byte{0x04, 1, 2, 3, 4, 0x06, 0, 80} // /ip4/1.2.3.4/tcp/80
 	unknown := []byte{0xfa, 0x7f, 0x01}           // an unassigned protocol code
-	truncated := []byte{0x04, 1, 2}                // ip4 with too few bytes
+	truncated := []byte{0x04, 1, 2}               // ip4 with too few bytes
 	var m Message
 	wantOK, wantErr := 0, false
 	n := verif_Choose("addresses", 0, 3)
